@@ -9,23 +9,15 @@ import ArvVerif.Proofs.C04_RaceCheck0
 import ArvVerif.Proofs.C04_RaceCheck1
 import ArvVerif.Proofs.C04_RaceCheck2
 import ArvVerif.Proofs.C04_RaceCheck3
-import ArvVerif.Proofs.C04_RaceCheck4
-import ArvVerif.Proofs.C04_RaceCheck5
-import ArvVerif.Proofs.C04_RaceCheck6
-import ArvVerif.Proofs.C04_RaceCheck7
 namespace ArvVerif.C04.Race
 
 theorem check_of (c : Cfg) : checkCfg c (tableOf c) = true := by
   have hm := mem_cfgGroup c
-  cases hp : c.patched <;> cases hs : c.serialize <;> cases hl : c.life0 <;> rw [hp, hs, hl] at hm
+  cases hs : c.serialize <;> cases hl : c.life0 <;> rw [hs, hl] at hm
   · exact (List.all_eq_true.mp checkGroup0) c hm
   · exact (List.all_eq_true.mp checkGroup1) c hm
   · exact (List.all_eq_true.mp checkGroup2) c hm
   · exact (List.all_eq_true.mp checkGroup3) c hm
-  · exact (List.all_eq_true.mp checkGroup4) c hm
-  · exact (List.all_eq_true.mp checkGroup5) c hm
-  · exact (List.all_eq_true.mp checkGroup6) c hm
-  · exact (List.all_eq_true.mp checkGroup7) c hm
 
 theorem run_inv (c : Cfg) (sched : List Bool) : Inv (tableOf c) (run sched (init c)) :=
   checkCfg_run (check_of c) sched _ (checkCfg_init (check_of c))
@@ -43,12 +35,10 @@ theorem run_contract (c : Cfg) (sched : List Bool) : contract (run sched (init c
   simp only [okLocal, Bool.and_eq_true] at h
   exact h.1.1.2
 
-theorem run_ackSafe (c : Cfg) (hc : riskyCfg c = false) (sched : List Bool) :
-    ackSafe (run sched (init c)) = true := by
+theorem run_ackSafe (c : Cfg) (sched : List Bool) : ackSafe (run sched (init c)) = true := by
   have h := run_local c sched
-  simp only [okLocal, Bool.and_eq_true, Bool.or_eq_true, hc] at h
-  have h2 := h.1.2
-  simpa using h2
+  simp only [okLocal, Bool.and_eq_true] at h
+  exact h.1.2
 
 theorem run_append (a b : List Bool) (s : St) : run (a ++ b) s = run b (run a s) := by
   induction a generalizing s with
